@@ -687,3 +687,66 @@ Theorem C06_now_then_related_thm fl dm ops q fr limit a :
   s_clock (rs_st rs) <= a ->
   fst (related q (rs_keys rs) (with_at fr a) limit) = fst (related q (rs_keys rs) (with_at fr (s_clock (rs_st rs))) limit).
 Proof. cbv zeta. intros Ha. apply related_now_then; [apply reach_facts | exact Ha]. Qed.
+
+(** ** commit order = time order: what a write adds is stamped with the new clock value, which is greater than
+    every time already in the store - so successive commits to a dataset carry strictly increasing times *)
+Lemma rstore_batch_ds_newkeys fl dm t ds ents rs k :
+  In k (rs_keys (rstore_batch_ds fl dm t ds ents rs)) -> In k (rs_keys rs) \/ r_time k = t.
+Proof.
+  unfold rstore_batch_ds. cbn [rs_keys].
+  set (acc0 := {| ra_b := _; ra_known := rs_known rs; ra_keys := rs_keys rs |}).
+  change (rs_keys rs) with (ra_keys acc0). generalize acc0. generalize (number_from 0 ents).
+  induction l as [|ie l IH]; intros acc; cbn [fold_left]; [now left|].
+  intros Hin. apply IH in Hin. destruct Hin as [Hin|Hin]; [|now right].
+  unfold rbatch_step in Hin.
+  destruct (keep_decision fl dm (stored_latest (get_ds (rs_st rs) ds) (e_id (snd ie)))
+              (assoc (e_id (snd ie)) (a_loc (ra_b acc))) (e_c (snd ie))); cbn [ra_keys] in Hin; [|now left].
+  apply fold_rop_In in Hin. destruct Hin as [Hin|(o & Ho & <-)]; [now left|]. right.
+  match type of Ho with In _ (ref_ops _ _ ?a ?b ?c ?d ?e) => pose proof (ref_ops_time ds t a b c d e) as Hf end.
+  rewrite Forall_forall in Hf. exact (Hf o Ho).
+Qed.
+
+Lemma rapply_newkeys fl dm rs o k :
+  In k (rs_keys (rapply fl dm rs o)) -> In k (rs_keys rs) \/ r_time k = s_clock (rs_st rs) + 1.
+Proof.
+  unfold rapply. change (s_clock (rs_st (rtick rs))) with (s_clock (rs_st rs) + 1).
+  change (rs_keys rs) with (rs_keys (rtick rs)). generalize (rtick rs) as r. generalize (s_clock (rs_st rs) + 1) as t.
+  intros t r. destruct o as [ds ents|sets]; [apply rstore_batch_ds_newkeys|].
+  revert r. induction sets as [|[d ents] sets IH]; intros r; cbn [fold_left fst snd]; [now left|].
+  intros Hin. apply IH in Hin. destruct Hin as [Hin|Hin]; [|now right]. now apply rstore_batch_ds_newkeys in Hin.
+Qed.
+
+Lemma apply_wop_newentries fl dm st o ds :
+  exists P, d_entries (get_ds (apply_wop fl dm st o) ds) = d_entries (get_ds st ds) ++ P
+            /\ Forall (fun e => en_time e = s_clock st + 1) P.
+Proof.
+  unfold apply_wop. change (s_clock (tick st)) with (s_clock st + 1).
+  change (get_ds st ds) with (get_ds (tick st) ds). generalize (tick st) as s. generalize (s_clock st + 1) as t. intros t s.
+  destruct o as [k ents|sets].
+  - destruct (Z.eq_dec ds k) as [->|Hne].
+    + rewrite get_set_same. apply store_batch_ds_entries.
+    + rewrite get_set_other by assumption. exists []. rewrite app_nil_r. split; [reflexivity | constructor].
+  - revert s. induction sets as [|[k ents] sets IH]; intros s; cbn [fold_left fst snd].
+    + exists []. rewrite app_nil_r. split; [reflexivity | constructor].
+    + destruct (IH (set_ds s k (store_batch_ds fl dm t ents (get_ds s k)))) as (P & HP & Ht). rewrite HP.
+      destruct (Z.eq_dec ds k) as [->|Hne].
+      * rewrite get_set_same. destruct (store_batch_ds_entries fl dm t ents (get_ds s k)) as (P0 & HP0 & Ht0). rewrite HP0.
+        exists (P0 ++ P). rewrite app_assoc. split; [reflexivity | apply Forall_app; split; assumption].
+      * rewrite get_set_other by assumption. exists P. split; [reflexivity | assumption].
+Qed.
+
+Theorem commit_order_is_time_order fl dm ops fl' dm' o :
+  let rs := rrun fl dm ops rstore0 in
+  let rs' := rapply fl' dm' rs o in
+  (* everything already there is stamped at or before the clock ... *)
+  (forall k, In k (rs_keys rs) -> r_time k <= s_clock (rs_st rs))
+  /\ (forall ds, Forall (fun e => en_time e <= s_clock (rs_st rs)) (d_entries (get_ds (rs_st rs) ds)))
+  (* ... and everything the next commit adds is stamped with the next clock value *)
+  /\ (forall k, In k (rs_keys rs') -> In k (rs_keys rs) \/ r_time k = s_clock (rs_st rs) + 1)
+  /\ (forall ds, exists P, d_entries (get_ds (rs_st rs') ds) = d_entries (get_ds (rs_st rs) ds) ++ P
+                          /\ Forall (fun e => en_time e = s_clock (rs_st rs) + 1) P).
+Proof.
+  cbv zeta. destruct (reach_facts fl dm ops) as (_ & _ & Het & Hkt).
+  split; [exact Hkt|]. split; [intros ds; now apply get_ds_etimes|]. split; [intros k; apply rapply_newkeys|].
+  intros ds. rewrite rapply_st. apply apply_wop_newentries.
+Qed.
